@@ -242,7 +242,8 @@ def solve_milp(
                 best_solution, best_obj = sol, sol_obj
                 gap = _compute_gap(best_obj, node_bound / sign if node_bound != 0 else 0)
                 if gap < gap_tol and solution_limit == 1:
-                    return Result(best_solution, best_obj, nodes_explored, total_iters)
+                    status = Status.FEASIBLE if unresolved else Status.OPTIMAL
+                    return Result(best_solution, best_obj, nodes_explored, total_iters, status)
 
             continue
 
